@@ -564,6 +564,118 @@ func c11Batch(r *core.Run, aw *types.Named) {
 			}
 			return true
 		})
+		// the batch is a private copy or handed over: none of the definitions shares its backing array with a
+		// slice the function keeps using
+		aliasBad := func(name string, defs []ast.Expr) string {
+			bad := ""
+			for _, rhs := range defs {
+				src := aliasSource(rhs)
+				if src == nil {
+					continue
+				}
+				// handed over: the function drops its own reference afterwards
+				given := false
+				srcText := core.ExprString(src)
+				ast.Inspect(f.Decl.Body, func(m ast.Node) bool {
+					as, ok := m.(*ast.AssignStmt)
+					if !ok || len(as.Lhs) != 1 || len(as.Rhs) != 1 || core.ExprString(as.Lhs[0]) != srcText || as.Pos() < rhs.End() {
+						return true
+					}
+					switch rh := ast.Unparen(as.Rhs[0]).(type) {
+					case *ast.Ident:
+						given = given || rh.Name == "nil"
+					case *ast.CallExpr:
+						if fid, ok := rh.Fun.(*ast.Ident); ok && fid.Name == "make" {
+							given = true
+						}
+					case *ast.CompositeLit:
+						given = true
+					}
+					return true
+				})
+				if !given {
+					bad = "'" + name + "' is defined as '" + core.ExprString(rhs) + "', which shares its backing array with '" + srcText + "', and the function keeps using '" + srcText + "'"
+				}
+			}
+			return bad
+		}
+		// a method value of a local object handed to another goroutine (pool.Do(ctx, batch.commit), go batch.run()):
+		// the slice fields of the object that the method reads are the batch
+		ast.Inspect(f.Decl.Body, func(n ast.Node) bool {
+			var cands []ast.Expr
+			how := ""
+			switch x := n.(type) {
+			case *ast.GoStmt:
+				cands, how = append(cands, x.Call.Fun), "go statement"
+			case *ast.CallExpr:
+				cands, how = append(cands, x.Args...), "call of "+core.ExprString(x.Fun)
+			default:
+				return true
+			}
+			for _, c := range cands {
+				sel, ok := ast.Unparen(c).(*ast.SelectorExpr)
+				if !ok {
+					continue
+				}
+				selInfo := info.Selections[sel]
+				if selInfo == nil || selInfo.Kind() != types.MethodVal {
+					continue
+				}
+				if _, isGo := n.(*ast.GoStmt); !isGo {
+					// as an argument the selector must be a value, not the callee
+					if call, ok := n.(*ast.CallExpr); ok && ast.Unparen(call.Fun) == ast.Expr(sel) {
+						continue
+					}
+				}
+				recvVar, _ := core.ObjOf(info, sel.X).(*types.Var)
+				m := w.Info(selInfo.Obj().(*types.Func))
+				if recvVar == nil || m == nil || m.Decl.Body == nil || isParam(f, recvVar) || recvVar.IsField() || recvVar.Pkg() == nil || recvVar.Parent() == recvVar.Pkg().Scope() {
+					continue
+				}
+				mrecv := recvVarOf(m)
+				// slice fields the method reads through its receiver
+				fields := map[string]bool{}
+				ast.Inspect(m.Decl.Body, func(y ast.Node) bool {
+					fs, ok := y.(*ast.SelectorExpr)
+					if !ok || mrecv == nil || core.ObjOf(m.Pkg.TypesInfo, fs.X) != mrecv {
+						return true
+					}
+					if fv, ok := m.Pkg.TypesInfo.Uses[fs.Sel].(*types.Var); ok && fv.IsField() {
+						if _, isSlice := fv.Type().Underlying().(*types.Slice); isSlice {
+							fields[fv.Name()] = true
+						}
+					}
+					return true
+				})
+				for fld := range fields {
+					var defs []ast.Expr
+					for _, d := range localDefs(f, recvVar) {
+						if cl := findCompositeLit(f, d.rhs); cl != nil {
+							if v := litField(cl, fld); v != nil {
+								defs = append(defs, v)
+							}
+						}
+					}
+					ast.Inspect(f.Decl.Body, func(y ast.Node) bool {
+						if as, ok := y.(*ast.AssignStmt); ok {
+							for i, l := range as.Lhs {
+								if ls, ok := ast.Unparen(l).(*ast.SelectorExpr); ok && ls.Sel.Name == fld && core.ObjOf(info, ls.X) == types.Object(recvVar) && i < len(as.Rhs) {
+									defs = append(defs, as.Rhs[i])
+								}
+							}
+						}
+						return true
+					})
+					r.Fn(f)
+					r.Fn(m)
+					r.Sites++
+					key := core.ShortKey(f.Obj) + " method value " + core.ExprString(sel) + " handed to " + how + " reads '" + recvVar.Name() + "." + fld + "'"
+					bad := aliasBad(recvVar.Name()+"."+fld, defs)
+					r.Check(bad == "", "C11.batch", key, w.Pos(sel.Pos()), "the batch is a private copy (or ownership is handed over)", bad+": requests buffered after the hand-over overwrite the batch before the worker reads it, so acknowledged branch commits are lost (their undo logs are never deleted)")
+				}
+			}
+			return true
+		})
 		for _, e := range escs {
 			r.Fn(f)
 			// free slice variables of the literal
@@ -592,36 +704,11 @@ func c11Batch(r *core.Run, aw *types.Named) {
 					r.Bad("C11.batch", key, pos, "the closure runs on another goroutine but reads the caller's slice '"+v.Name()+"' directly")
 					return true
 				}
-				bad := ""
+				var rhss []ast.Expr
 				for _, d := range localDefs(f, v) {
-					src := aliasSource(d.rhs)
-					if src == nil {
-						continue
-					}
-					// handed over: the function drops its own reference afterwards
-					given := false
-					srcText := core.ExprString(src)
-					ast.Inspect(f.Decl.Body, func(m ast.Node) bool {
-						as, ok := m.(*ast.AssignStmt)
-						if !ok || len(as.Lhs) != 1 || len(as.Rhs) != 1 || core.ExprString(as.Lhs[0]) != srcText || as.Pos() < d.rhs.End() {
-							return true
-						}
-						switch rh := ast.Unparen(as.Rhs[0]).(type) {
-						case *ast.Ident:
-							given = given || rh.Name == "nil"
-						case *ast.CallExpr:
-							if fid, ok := rh.Fun.(*ast.Ident); ok && fid.Name == "make" {
-								given = true
-							}
-						case *ast.CompositeLit:
-							given = true
-						}
-						return true
-					})
-					if !given {
-						bad = "'" + v.Name() + "' is defined as '" + core.ExprString(d.rhs) + "', which shares its backing array with '" + srcText + "', and the function keeps using '" + srcText + "'"
-					}
+					rhss = append(rhss, d.rhs)
 				}
+				bad := aliasBad(v.Name(), rhss)
 				r.Check(bad == "", "C11.batch", key, pos, "the batch is a private copy (or ownership is handed over)", bad+": requests buffered after the hand-over overwrite the batch before the worker reads it, so acknowledged branch commits are lost (their undo logs are never deleted)")
 				return true
 			})
